@@ -246,3 +246,21 @@ Proof. split; [intros H; inv H; auto|intros [? ?]; constructor; auto]. Qed.
 
 Lemma vc_ok_NF vc : vc_ok vc -> NF vc.
 Proof. destruct vc; simpl; try tauto; intros _; [left; auto|right; constructor]. Qed.
+
+(* ---------- byte keys and nibble paths ---------- *)
+
+Lemma to_nibbles_path_ok bs : Forall (fun b => (b < 256)%N) bs -> path_ok (to_nibbles bs).
+Proof.
+  induction 1 as [|b bs Hb Hbs IH]; simpl; [constructor|].
+  apply path_ok_cons. split; [lia|]. apply path_ok_cons. split; [lia|]. exact IH.
+Qed.
+
+Lemma from_to_nibbles bs : Forall (fun b => (b < 256)%N) bs -> from_nibbles (to_nibbles bs) = bs.
+Proof.
+  induction 1 as [|b bs Hb Hbs IH]; simpl; [reflexivity|]. rewrite IH. f_equal.
+  rewrite !N2Nat.id. lia.
+Qed.
+
+Lemma to_nibbles_spec bs : Forall (fun b => (b < 256)%N) bs ->
+  path_ok (to_nibbles bs) /\ from_nibbles (to_nibbles bs) = bs.
+Proof. intros H. split; [apply to_nibbles_path_ok|apply from_to_nibbles]; exact H. Qed.
